@@ -249,8 +249,11 @@ def run_module(res: Result, ctx: Ctx, mi: int, group, srcdir: Path, subsets: Opt
 
             try:
                 sib = StubIndexBuilder(".*", 0)
-                for tr_ in traces_for(mod, metas, subset):
+                trs = traces_for(mod, metas, subset)
+                for ti, tr_ in enumerate(trs):
                     sib.log(tr_)
+                    if ti == (len(trs) - 1) // 2 and len(trs) > 1:
+                        sib.get_stubs()   # polled half-way: what was stubbed so far must still be there at the end
                 text2 = sib.get_stubs()[modname].render()
                 vs2 = check_subset(text2, mod, metas, subset)
                 res.transitions += 1
@@ -277,6 +280,40 @@ def run_module(res: Result, ctx: Ctx, mi: int, group, srcdir: Path, subsets: Opt
             res.sample({"module": src[:500], "subset": list(subset), "stub": text[:500]})
     del sys.modules[modname]
 
+
+DESC_SRC = '''
+import abc
+
+
+class lazy(property):
+    pass
+
+
+class D(abc.ABC):
+    @abc.abstractclassmethod
+    def acm(cls, a, b=1):
+        return 1
+
+    @abc.abstractstaticmethod
+    def asm(a, *, k=None):
+        return 1
+
+    @lazy
+    def lp(self):
+        return 1
+
+    @abc.abstractproperty
+    def ap(self):
+        return 1
+
+    def plain(self, a):
+        return 1
+
+    class N:
+        @abc.abstractclassmethod
+        def ncm(cls, /, a):
+            return 1
+'''
 
 ANN_SRC = '''
 from typing import List, Optional
@@ -423,6 +460,35 @@ def special_stage(res: Result, ctx: Ctx, srcdir: Path) -> None:
                 for kind, sig, msg in check_subset(text, amod, ametas, subset)[:2]:
                     res.violate(Violation(ID, kind, f"annotated-source:{strat.name}:" + sig, case, f"partially annotated source, strategy {strat.name}: " + msg))
     res.oblige("special:annotated-sources-x-strategies", True)
+    # methods declared through SUBCLASSES of the descriptors (abc.abstractclassmethod / abstractstaticmethod /
+    # abstractproperty, a project's own `class lazy(property)`): same decorators as the plain descriptors
+    dmetas = [
+        {"idx": 0, "path": ("D",), "name": "acm", "kind": "classmethod", "params": (), "names": [], "recv": "cls"},
+        {"idx": 1, "path": ("D",), "name": "asm", "kind": "staticmethod", "params": (), "names": [], "recv": ""},
+        {"idx": 2, "path": ("D",), "name": "lp", "kind": "property", "params": (), "names": [], "recv": "self"},
+        {"idx": 3, "path": ("D",), "name": "ap", "kind": "property", "params": (), "names": [], "recv": "self"},
+        {"idx": 4, "path": ("D", "N"), "name": "ncm", "kind": "classmethod", "params": (), "names": [], "recv": "cls"},
+        {"idx": 5, "path": ("D",), "name": "plain", "kind": "instance", "params": (), "names": [], "recv": "self"},
+    ]
+    dname = f"c12desc_{ctx.seed}"
+    (srcdir / f"{dname}.py").write_text(DESC_SRC)
+    importlib.invalidate_caches()
+    dmod = importlib.import_module(dname)
+    for r in range(1, len(dmetas) + 1):
+        for subset in itertools.combinations(range(len(dmetas)), r):
+            res.states += 1
+            case = {"module_index": -4, "subset": list(subset), "tier": ctx.tier}
+            try:
+                text = build_module_stubs_from_traces(traces_for(dmod, dmetas, subset), 0)[dname].render()
+            except Exception as e:  # noqa: BLE001
+                res.violate(Violation(ID, "exception", type(e).__name__, case, f"descriptor subclasses: raised {e!r}"))
+                continue
+            res.validated += 1
+            res.evaluations += 1
+            res.transitions += len(subset)
+            for kind, sig, msg in check_subset(text, dmod, dmetas, subset)[:2]:
+                res.violate(Violation(ID, kind, "descriptor-subclass:" + sig, case, "descriptor subclasses: " + msg))
+    res.oblige("special:descriptor-subclasses", True)
     # two modules interleaved
     gs = groups(ctx.tier)
     for a_i, b_i in ((0, 1), (2, 5)):
@@ -492,7 +558,7 @@ def run(ctx: Ctx) -> Result:
         return res
 
     res = run_shards(ctx, shard, list(range(nshards)))
-    for o in ("saw:StubIndexBuilder", "special:same-named-functions", "special:annotated-sources-x-strategies", "special:interleaved-modules", "saw:wrapped-signature", "saw:posonly-separator", "saw:kwonly-separator", "saw:async"):
+    for o in ("saw:StubIndexBuilder", "special:same-named-functions", "special:annotated-sources-x-strategies", "special:descriptor-subclasses", "special:interleaved-modules", "saw:wrapped-signature", "saw:posonly-separator", "saw:kwonly-separator", "saw:async"):
         res.obligations.setdefault(o, False)
     res.bounds.update({"max_params": 4 if ctx.tier == "thorough" else "3 (+4 for function/instance)", "modules": len(gs), "functions_per_module": 5, "subsets": "all 31"})
     return res
